@@ -3,6 +3,9 @@
 set -e
 cd "$(dirname "$0")"
 V=.venv
+# concurrent checks on a fresh restore must not build the venv at the same time
+exec 9>.venv.lock
+flock 9
 if [ -x $V/bin/python ] && $V/bin/python -c "import z3, cvc5, ply, jsonschema, deal, crosshair" 2>/dev/null; then
   exit 0
 fi
